@@ -436,4 +436,39 @@ def unfold (G : Graph) : Nat → Nat → TyId → Res
       else seqRes (ty + 1) (nd.children.map (fun c => unfold G n (if nullable then d - 1 else d) (G.locTy c))) []
     | _ => .dangling
 
+/-! ### static check of a request program (schedule independent)
+
+  Abstract interpretation of the operand stack: every `cached_call` receives sub-loaders of the argument types of
+  its own type, a stub is bound to a loader (not a stub) of the type of its location, and the request ends with
+  exactly the loader of the requested type.  `compile` output passes the check for every well-formed graph with
+  enough fuel; the driver evaluates it for every graph the correspondence explores. -/
+
+/-- type of the loader in a stack slot, and whether the slot holds a stub -/
+abbrev Abs := TyId × Bool
+
+def absStep (G : Graph) (st : List Abs) : Instr → Option (List Abs)
+  | .stubGet l => some ((G.locTy l, true) :: st)
+  | .stubBind l =>
+    match st with
+    | (ty, false) :: _ => if ty = G.locTy l then some st else none
+    | _ => none
+  | .cached _ c n kind =>
+    match kind with
+    | .aux => if n = 0 then some st else none
+    | .fail => if n = 0 then some st else none
+    | .prim p => if n = 0 ∧ (G.node c).kind = .prim p then some ((c, false) :: st) else none
+    | .fresh nl =>
+      if (G.node c).kind = .fresh nl ∧ (st.take n).reverse.map (·.1) = (G.node c).children.map G.locTy ∧
+          n ≤ st.length
+      then some ((c, false) :: st.drop n) else none
+
+def absRun (G : Graph) : List Instr → List Abs → Option (List Abs)
+  | [], st => some st
+  | i :: is, st =>
+    match absStep G st i with
+    | some st' => absRun G is st'
+    | none => none
+
+def typed (G : Graph) (code : List Instr) (ty : TyId) : Bool := absRun G code [] == some [(ty, false)]
+
 end Adaptix.Threads
